@@ -25,7 +25,7 @@ try:
     for f in ("patch.diff", "demo.py", "README.md"):
         shutil.copy(os.path.join(src, f), os.path.join(dst, f))
     json.dump({"property": prop, "id": f"{prop}-{dst_letter}",
-               "origin": "independent sub-agent (round 2) given only the property text, a list of ideas already taken, and its own scratch worktree of /repo (nothing from /verif)",
+               "origin": "independent sub-agent given only the property text, a list of ideas already taken, and its own scratch worktree of /repo (nothing from /verif)",
                "needs_to_manifest": needs,
                "confirmed": {"what_i_ran": f"scratch worktree /tmp/seedcheck at /repo HEAD ({head}): git apply --check; demo.py <src> clean -> exit 0; git apply patch.diff; demo.py <src> -> exit {m}; worktree removed",
                              "demo_clean_rc": c, "demo_patched_rc": m,
